@@ -422,7 +422,7 @@ def jobs(tier):
         for name, lo, hi in [('ascii', 0, 0x80), ('2byte', 0x80, 0x800), ('3byte', 0x800, 0x10000), ('4byte', 0x10000, 0x110000)]:
             js.append(Job('tag-uri/%s/%s' % ('tag' if w == 0 else 'prefix', name), tag_uri,
                           [lambda c, which, _w=w, _lo=lo, _hi=hi: which == _w and len(c) == 1 and _lo <= ord(c) < _hi and not ('\ud800' <= c <= '\udfff')],
-                          budget=250 if q else 900,
+                          budget=(600 if name == '4byte' else 250) if q else 900, per_path_timeout=60,
                           bounds='%s holding one character, every Unicode scalar value in U+%04X..U+%04X: prepare + scan + parse round trip' % (
                               'tag' if w == 0 else '%TAG prefix', lo, hi - 1)))
     NG = len(NODE_TAGS)
